@@ -30,6 +30,8 @@ def applyW (v : Vals) : W → Fields → Fields
   | .timestamp, f => f.set "timestamp" v.ts
   | .identification, f => (f.set "task_uuid" (.uuid v.uuid)).set "action_type" (.str v.atype)
   | .taskLevel, f => f.set "task_level" (.lvl v.lvl)
+  | .taskUuid, f => f.set "task_uuid" (.uuid v.uuid)
+  | .messageType, f => f.set "message_type" (.str v.atype)     -- `Vals.atype` carries the message type for `Action.log`
   | _, f => f
 
 def applyWs (v : Vals) (ws : List W) (f : Fields) : Fields := ws.foldl (fun acc w => applyW v w acc) f
@@ -66,5 +68,31 @@ theorem finishRec_failure_is_translated (env : Env) (w : World) (h : Nat) (a : A
          (a.sers.map (fun _ => []))) := by
   simp only [World.finishRec, hget, hf]
   rfl
+
+/-- **`Action._start`**: `World.startRec` writes the given fields with the generated statement list applied in order (so
+`action_status`, `timestamp`, the identification and `task_level` override application fields of the same name), with the start
+serializer. -/
+theorem startRec_is_translated (env : Env) (w : World) (h : Nat) (a : Act) (fields : Fields)
+    (hget : w.acts[h]? = some a) :
+    World.startRec env w h fields =
+      (let c := w.clock
+       let r := c.1.nextLevel h
+       r.1.loggerWrite env (applyWs ⟨c.2, a.uuid, a.atype, r.2, "", ""⟩ Finish.startStmts fields) (a.sers.map (·.1))) := by
+  simp only [World.startRec, hget]
+  rfl
+
+/-- **`Action.log`**: the dictionary `World.buildLog` makes is the generated statement list applied in order to the fields passed
+(`timestamp`, `task_uuid`, `task_level`, then `message_type` - the message type overrides a field of that name). -/
+theorem buildLog_is_translated (w : World) (h : Nat) (mtype : String) (fields : Fields) :
+    (w.buildLog h mtype fields).2 =
+      (let c := w.clock
+       let u := ((c.1.acts[h]?).map Act.uuid).getD 0
+       let r := c.1.nextLevel h
+       applyWs ⟨c.2, u, mtype, r.2, "", ""⟩ Finish.logStmts fields) := by
+  simp only [World.buildLog]
+  rfl
+
+theorem start_log_shape : Finish.startStmts.getLast? = some .write ∧ W.serializerStart ∈ Finish.startStmts ∧
+    Finish.logStmts.getLast? = some .writePop ∧ W.popLogger ∈ Finish.logStmts := by decide
 
 end Sys.C03Fin
